@@ -129,6 +129,7 @@ def _vm_goal(case, out):
         for _ in range(int(t.next())):
             h, f = t.next(), t.next()
             creds.append("(%s, mkCred %s)" % (h, " ".join("true" if c == "1" else "false" for c in f)))
+        errs = [t.next() for _ in range(int(t.next()))]
         ptable = []
         for _ in range(int(t.next())):
             hdr, sch, realm, service, scope = t.next(), t.next(), t.next(), t.next(), t.next()
@@ -137,7 +138,7 @@ def _vm_goal(case, out):
         hist = []
         for _ in range(int(t.next())):
             h = t.next()
-            body = {"none": "BNone", "rewind": "BRewindable", "once": "BOnce"}[t.next()]
+            body = {"none": "BNone", "rewind": "BRewindable", "once": "BOnce", "geterr": "BGetBodyErr"}[t.next()]
             hh = t.strs()
             gh = t.strs()
             script = []
@@ -153,7 +154,7 @@ def _vm_goal(case, out):
             for w in part.split(" "):
                 if w.startswith("="):
                     res = {"=401": "RResp true", "=ok": "RResp false", "=nocred": "RErr ENoCred", "=missing": "RErr EMissing",
-                           "=fetch": "RErr EFetch", "=rewind": "RErr ERewind", "=transport": "RErr ETransport"}[w]
+                           "=fetch": "RErr EFetch", "=rewind": "RErr ERewind", "=transport": "RErr ETransport", "=crederr": "RErr ECred"}[w]
                 elif w[0] == "R":
                     h, a = w[1:].split(":", 1)
                     sends.append("PReg %s %s" % (h, _cauth(a)))
@@ -165,7 +166,7 @@ def _vm_goal(case, out):
                     else:
                         sends.append("POAuth %s %s %s %s %s" % (h, _cstr(realm), _cstr(service), _cstr(scopes), _csecret(last)))
             exp.append("([%s], %s)" % ("; ".join(sends), res))
-        return "proj_run (run_model %s %s [%s] [%s] [%s]) = [%s]" % (fl, oauth2, "; ".join(creds), "; ".join(ptable), "; ".join(hist), "; ".join(exp))
+        return "proj_run (run_model %s %s [%s] [%s] [%s] [%s]) = [%s]" % (fl, oauth2, "; ".join(creds), "; ".join(errs), "; ".join(ptable), "; ".join(hist), "; ".join(exp))
     return None
 
 
